@@ -6,7 +6,7 @@ HOOKS = {
               "RUSTEMO_VERIF_DUMP_DIR=<dir> selects where <grammar>-<pid>-<n>.table.json files are written",
     "baseline_off_cmd": "cd /repo && cargo nextest run --workspace --no-fail-fast --test-threads 8 --offline "
                         "|| cargo test --workspace --no-fail-fast --offline",
-    "source_commits": [],
+    "source_commits": ["f1ab105"],
     "add_only": True,
 }
 
